@@ -3,27 +3,7 @@
 properties.jsonl (everything else goes under not_applicable with its reason)."""
 import json, subprocess
 ROOT = '/verif'
-CLAIMED = {
- # id: (engine/bin, category, technique, level text, level note, design ref)
- 'C08': ('vc-front', 'exploration', 'proptest choice-sequence generators: re-laid / re-spaced corpus x [format] settings; oracle fmt(fmt(x)) == fmt(x)',
-         'Generated-input search (thousands of re-laid, re-spaced and as-shipped texts x generated format settings per run) against the idempotence oracle; failures shrink to a replay file. Found the property does not hold when the first pass changes the line structure (two listed findings); on text whose line structure the formatter keeps it is decided by search and is violation-free on the current tree.',
-         'Trusts Parser::parse + analyze_pass1 + Formatter::format being what `veryl fmt` runs (read from cmd_fmt.rs). Sampling, not exhaustive; inputs derive from the ~320 corpus files (testcases + std).', 'C08'),
- 'C09': ('vc-front', 'exploration', 'proptest generators: re-laid corpus with injected comments x [format] settings; oracle = token-sequence / comment-sequence equality + equal emitted SV token stream',
-         'Generated-input search against a two-directional oracle (nothing dropped, nothing invented: token sequence, comment sequence, emitted SV); thousands of cases per run, shrinking to a replay file.',
-         'Token witness = parser token positions plus the text between them; optional trailing commas are normalised as the property allows. Emitted-SV clause only when the file analyses cleanly on its own.', 'C09'),
- 'C10': ('vc-front', 'exploration', 'proptest generators: token-level edits + junk bytes on corpus files, junk-rich strings, generated deep-nesting / long-run shapes parsed in a subprocess; oracle = returns Ok/Err without panic or signal, diagnostic span inside input',
-         'Generated-input search (~25 000 inputs per quick run) against the crash/termination/span oracle; pathological nesting runs in a subprocess so a stack overflow is observed as a signal and reported as a violation, not as a dead check.',
-         'Span bound = the newline-terminated copy the parser lexes. Subprocess time-outs (240 s) and SIGKILL are inconclusive (skipped), never violations. Quick tier nests to depth 2 000; 100 000 only in thorough.', 'C10'),
- 'C12': ('vc-front', 'exploration', 'proptest generators: re-laid corpus with multi-byte comments/strings; oracle = source[pos..pos+len] == token text and line/column recomputed from the text',
-         'Generated-input search against an independent position oracle recomputed from the raw text, for every token and comment of every generated file; one defect repaired (fix: commit), one recorded (external lexer crate).',
-         'Oracle recomputes line/column by counting characters in the source; trusts only that token text is what the parser reports.', 'C12'),
- 'C28': ('vc-doc', 'exploration', 'proptest choice-sequence generator of Doc trees (emitter-style with anchors / formatter-style with break-only text) x RenderOpts; oracle = leaf sequence of the output (both directions), break-only text present iff a witness Line of its group rendered as newline, anchor line/column recomputed from the output text',
-         'Generated-input search (1.5 million documents per quick run, ~25% with a broken and a flat group) against a content/anchor oracle recomputed from the rendered text alone; failures shrink to a replay file. One defect found (anchor column after a multi-line block comment).',
-         'Documents are built the way the emitter and formatter build them (node kinds and positions read from their builders), not taken from real emitter runs; pad widths and trailing-blank stripping are not asserted.', 'C28'),
- 'C29': ('vc-doc', 'exploration', 'stateful model-based testing: generated Vec<Op> over the Store API interpreted against the real store in a scratch directory and an in-memory model (last saved map + blob bytes); invariants after every reopen and save',
-         'Generated operation histories (about 5 000 per quick run, 80% with save + reopen + identical re-scan) checked step by step against a reference model, including shared blobs, key changes, tampered manifests and the skipped-write path; failing histories shrink as one value.',
-         'Only sequences the real callers can produce (save after a successful build, set_* on entries of the current build). Blob-file damage and concurrent stores belong to C05/C30.', 'C29'),
-}
+CLAIMED = {k: (v['engine'], v['category'], v['technique'], v['text'], v['note'], k) for k, v in json.load(open(f'{ROOT}/tools/claims.json')).items()}
 props = [json.loads(l) for l in open(f'{ROOT}/properties.jsonl')]
 NA_REASON = json.load(open(f'{ROOT}/tools/not_claimed.json'))
 hook_commits = ['90905ee']
